@@ -202,8 +202,9 @@ def run(tier, seed):
         xs = (d, d + b'\x00', G.mutate(rng, d), G.mutate(rng, d))
         if src.startswith('Peek('):
             continue           # builds nothing, by design
-        if src.startswith(('Rebuild(', 'Restreamed(', 'Transformed(')) or (src.startswith('NullTerminated(') and 'term=' in src):
-            xs = (d,)          # recomputed on build / unit-wise streams: only what they build themselves is in their domain
+        if src.startswith(('Rebuild(', 'Restreamed(', 'Transformed(', 'NullStripped(')) or (src.startswith('NullTerminated(') and 'term=' in src):
+            xs = (d,)          # recomputed on build / unit-wise streams / payloads that must not end in the pad byte: only what they
+                               # build themselves is in their domain
         if src.startswith(('Optional(', 'Select(')):
             xs = (d,)          # an input the first alternative rejects parses as None, which builds as that alternative again when it
                                # builds from nothing: recorded known finding (Optional(Const(..))), not multiplied here
